@@ -27,8 +27,10 @@ prop = sid.split('-')[0]
 # roots (/tmp/twinsA, /tmp/twinsB): follow the one named in equiv.py
 root = 'twinsA'
 try:
-    if '/tmp/twinsB/' in open(src + '/equiv.py').read():
-        root = 'twinsB'
+    import re as _re
+    _m = _re.search(r'/tmp/(twins[A-Z])/', open(src + '/equiv.py').read())
+    if _m:
+        root = _m.group(1)
 except OSError:
     pass
 base = '/tmp/%s/%s' % (root, prop)
